@@ -49,6 +49,10 @@ def gen_body(rng):
         b[-1] = 10
         if n > 1:
             b[-2] = 13
+    if kind in (3, 5, 7) and n:
+        # bytes that other line-splitting routines (bytes.splitlines, str.splitlines) treat as line ends; a WSGI input line ends at LF only
+        for _ in range(rng.randint(1, 12)):
+            b[rng.randrange(n)] = rng.choice([13, 13, 13, 0x0b, 0x0c, 0x1c, 0x1d, 0x1e, 0x85])
     return bytes(b)
 
 
@@ -193,6 +197,13 @@ def run_case(run, e1, case):
         out.append(("input-call-differs/" + op[0], "%s returned %s, file semantics give %s" % (op, got, want)))
     uris = [r["uri"] for r in obs["reqs"]]
     want_uris = ["/c07"] + ["/m-%d-k9q" % i for i in range(1, nfollow + 1)]
+    if case.get("framing") == "chunked/cut":
+        run.count("cut_chunked_bodies")
+        r0 = obs["reqs"][0] if obs["reqs"] else None
+        if r0 is not None and "body_error" not in r0:
+            return [("truncated-chunked-body-reads-as-complete", "the stream ends before the last-chunk; read() to the end returned "
+                     "%d bytes and no error" % (state["consumed"] if state["consumed"] is not None else -1))]
+        return []
     if not log and case.get("framing") == "chunked/badtrailer":
         refused = obs["terminal"][0] in ("reject", "body_error") and len(uris) <= 1
         if not refused and (obs["terminal"] != ("end",) or uris != want_uris):
@@ -217,6 +228,15 @@ def run_case(run, e1, case):
 def make_case(rng):
     body = gen_body(rng)
     framed, label = frame(rng, body)
+    if label.startswith("chunked/") and label != "chunked/badtrailer" and len(body) > 4 and rng.random() < 0.06:
+        # the client goes away before the last-chunk: reading such a body to its end must fail - the application has no other
+        # way to tell a cut-off upload from a complete one
+        head_end = framed.index(b"\r\n\r\n") + 4
+        last = framed.rindex(b"\r\n0")            # start of the line of the last-chunk (its extension, if any, follows)
+        if last > head_end + 2:
+            k = rng.randint(head_end + 1, last)
+            return {"body": body.hex(), "stream": framed[:k].hex(), "framing": "chunked/cut", "program": [["read", None]],
+                    "follow": 0, "cuts": sorted(rng.sample(range(1, k), min(k - 1, rng.randint(0, 3)))), "cfg": {}}
     nfollow = rng.choice([0, 1, 1, 2])
     stream = framed + b"".join(gen.marker(i) for i in range(1, nfollow + 1))
     n = len(stream)
@@ -266,7 +286,7 @@ def shard(sh):
 def main(tier, seed):
     run = Run(PROP, tier, seed, "exploration", RULE)
     run.require("programs_completed", "stopped_before_eof", "consumed_to_eof", "followed_by_pipelined_request",
-                "framing/cl", "framing/chunked", "non_default_header_limits", "malformed_trailer_cases", "worker_connections",
+                "framing/cl", "framing/chunked", "non_default_header_limits", "malformed_trailer_cases", "cut_chunked_bodies", "worker_connections",
                 "worker_later_call_with_body")
     q = tier == "quick"
     per = 4000 if q else 40000
